@@ -15,7 +15,8 @@ MANIFEST = dict(
          "(b) concurrent kernel: for safe and eventually-safe subscribers, any number of producer goroutines and any schedule, the callback-begin subsequence obeys the grammar "
          "(kernel_grammar_concurrent; unsafe mode under a single producer), over the subscriber/subscription programs that are regenerated from subscriber.go / subscription.go / observer.go and decided equal to the expected ones on every run. "
          "(c) subjects: every subscriber's trace obeys the grammar (C10.subscriber_grammar). "
-         "Tie: every catalogue operator's machine is run against the real operator on exhaustive/seeded raw scripts incl. illegal suffixes (kinds + drops compared), plus a direct Grammar oracle on the implementation trace.",
+         "Tie: every catalogue operator's machine is run against the real operator on exhaustive/seeded raw scripts incl. illegal suffixes (kinds + drops compared), plus a direct Grammar oracle on the implementation trace."
+         ' Pipelines under goroutine-driven producers with a racing terminal (the overlap / overlap2 set-ups): no callback of the final observer begins after its terminal callback wherever the regenerated constructor table (RoProps/C02b, premise of the concurrent clause) says a locking subscriber sits in front of it.',
     technique="Lean 4 proof (induction over raw scripts, gate lemmas) + differential correspondence of the executable model against the implementation",
     ref='5/C01')
 
